@@ -11,7 +11,11 @@ part of the model.  Directory mtimes are not modelled (POSIX bumps them on every
 neither "recorded" nor "unchanged" for a directory that receives entries): `utime` on a directory is a no-op
 and the harness drops those calls from the recorded trace.
 
-Primitive operations (`Op`) with the POSIX error cases the code relies on are given by `step`.
+Primitive operations (`Op`) with the POSIX error cases the code relies on are given by `step`.  Objects are created
+with the identity of the calling process, except that inside a directory carrying the set-group-ID bit they get the
+directory's group (`newGid`) and sub-directories the bit as well (`newDirMode`), as on Linux; `mkdir(2)` honours only
+the permission and sticky bits of its mode argument.  (chown(2) clearing set-uid/set-gid of a non-directory is not
+modelled: the modelled code only chowns objects it has just created, or directories.)
 
 ## The model of the code (after the two `fix:` commits of C18)
 
@@ -52,7 +56,7 @@ inductive Errno where
   | ENOENT | EEXIST | ENOTDIR | EISDIR | ENOTEMPTY | EPERM | EBUSY | EINVAL | ENOSYS
   deriving DecidableEq, Repr, Inhabited
 
-/-- identity of the calling process: owner of created inodes, umask for `mkdir`/`open`/`mkfifo` -/
+/-- identity of the calling process: owner of created inodes (group: see `newGid`), umask for `mkdir`/`open`/`mkfifo` -/
 structure Env where
   umask : Nat
   uid : Nat
@@ -101,6 +105,22 @@ end Fs
 
 def maskMode (mode umask : Nat) : Nat := mode &&& (0o7777 ^^^ (umask &&& 0o7777))
 
+/-- group of the parent directory of `p` when that directory carries the set-group-ID bit (`S_ISGID`, `0o2000`):
+what is created inside such a directory belongs to the directory's group, not to the creating process' -/
+def Fs.sgidParent (fs : Fs) (p : Path) : Option Nat :=
+  match fs.view p.tail with
+  | some (_, nd) => if nd.kind = .dir ∧ nd.mode &&& 0o2000 ≠ 0 then some nd.gid else none
+  | none => none
+
+/-- group of an object created at `p` by a process of identity `env` (Linux/SysV set-group-ID directory semantics) -/
+def newGid (env : Env) (fs : Fs) (p : Path) : Nat := (fs.sgidParent p).getD env.gid
+
+/-- permission bits of a directory created at `p` with effective mode `mode`: a sub-directory of a set-group-ID
+directory inherits the bit (`mkdir(2)` itself honours only the permission and sticky bits of its argument: `step`
+passes `mode &&& 0o1777`; a recorded `02775` takes the later `chmod`) -/
+def newDirMode (fs : Fs) (p : Path) (mode : Nat) : Nat :=
+  if (fs.sgidParent p).isSome then mode ||| 0o2000 else mode
+
 /-- file-system mutating system calls issued by the modelled code -/
 inductive Op where
   | mkdir (p : Path) (mode : Nat)          -- mode = effective mode (umask already applied)
@@ -123,7 +143,7 @@ def step (env : Env) (fs : Fs) : Op → Except Errno Fs
     | some e => .error e
     | none =>
       if (fs.view p).isSome then .error .EEXIST
-      else .ok (fs.alloc p ⟨.dir, mode, env.uid, env.gid, 0⟩)
+      else .ok (fs.alloc p ⟨.dir, newDirMode fs p (mode &&& 0o1777), env.uid, newGid env fs p, 0⟩)
   | .rmdir p =>
     match fs.view p with
     | none => .error (fs.missingErr p)
@@ -141,7 +161,7 @@ def step (env : Env) (fs : Fs) : Op → Except Errno Fs
     | some e => .error e
     | none =>
       match fs.view p with
-      | none => .ok (fs.alloc p ⟨.file "", mode, env.uid, env.gid, 0⟩)
+      | none => .ok (fs.alloc p ⟨.file "", mode, env.uid, newGid env fs p, 0⟩)
       | some (i, nd) =>
         match nd.kind with
         | .file _ => .ok (fs.updIno i fun n => { n with kind := .file "", mtime := 0 })
@@ -159,13 +179,13 @@ def step (env : Env) (fs : Fs) : Op → Except Errno Fs
     | some e => .error e
     | none =>
       if (fs.view p).isSome then .error .EEXIST
-      else .ok (fs.alloc p ⟨.sym t, 0o777, env.uid, env.gid, 0⟩)
+      else .ok (fs.alloc p ⟨.sym t, 0o777, env.uid, newGid env fs p, 0⟩)
   | .mkfifo p mode =>
     match fs.parentErr p with
     | some e => .error e
     | none =>
       if (fs.view p).isSome then .error .EEXIST
-      else .ok (fs.alloc p ⟨.fifo, mode, env.uid, env.gid, 0⟩)
+      else .ok (fs.alloc p ⟨.fifo, mode, env.uid, newGid env fs p, 0⟩)
   | .link src dst =>
     match fs.view src with
     | none => .error (fs.missingErr src)
@@ -384,8 +404,28 @@ def ancestorsIncl : Path → List Path
   | [] => [[]]
   | n :: q => ancestorsIncl q ++ [n :: q]
 
+/-- `sticky_parent` of snakeoil's walk: the set-group-ID bit of the deepest directory that already exists on the
+way (`os.stat`, so through symlinks); `anc` outermost first, `acc` = the value so far -/
+def sgidAbove (fs : Fs) : List Path → Bool → Bool
+  | [], acc => acc
+  | a :: rest, acc =>
+    match statFollow fs 8 a with
+    | some (_, _, nd) => sgidAbove fs rest (decide (nd.mode &&& 0o2000 ≠ 0))
+    | none => acc
+
+/-- snakeoil `ensure_dirs(p, mode=0o750, minimal=True)` for a missing `p`: the walk, then its `resets`: when the
+directories were made below a set-group-ID directory, the requested mode is re-applied to the **last** one
+(`if base == apath and sticky_parent: resets.append((base, mode))`) — that drops the inherited set-group-ID bit
+from `p` itself, the intermediate directories keep it.  A failing `chmod` makes `ensure_dirs` return `False`. -/
 def ensureDirs (env : Env) (s : St) (p : Path) : St × Bool :=
-  ensureDirsWalk env s (ancestorsIncl p)
+  match ensureDirsWalk env s (ancestorsIncl p) with
+  | (s1, true) =>
+    if s.fs.view p = none ∧ sgidAbove s.fs (ancestorsIncl p) false = true then
+      match s1.sys env (.chmod p 0o750) with
+      | (s2, none) => (s2, true)
+      | (s2, some _) => (s2, false)
+    else (s1, true)
+  | (s1, false) => (s1, false)
 
 /-- what creates the object itself at `fp` -/
 def createOps (env : Env) (e : Entry) (fp : Path) : List Op :=
